@@ -219,7 +219,19 @@ def runPack {W : Type} [DecidableEq W] (pk : Pack W) (br : BR) (worldIn : Json) 
       "C11.x_batch_advance_guarded", "C01.x_batch_advance_guarded", "C11.x_within_partition", "C01.x_within_partition",
       "C01.x_write_within_batch", "C11.x_completed_means_released", "C18.x_completed_means_released",
       "C01.x_init_claims", "C11.x_init_claims"]
-    let holds := if k > 0 then holds.filter (fun kv => robust.contains kv.1) else holds
+    -- ... but during a List outage (k ≥ 1000000) no write fails: a batch that BECOMES Ready in such a reconcile is judged too,
+    -- directly on the implementation's output (what the model predicts for the undisturbed reconcile - `stopped` - says nothing
+    -- about a reconcile that could not read): Ready only with the plane's readiness predicate true of the real world.
+    -- Clauses that rest on the model's `stopped` are not judged under an outage.
+    let becameReady := match ibr with
+      | some b => br.status.phase = .progressing && b.status.phase = .progressing && b.status.batchState = .ready && br.status.batchState != .ready
+      | none => false
+    let outageRobust := ["C18.x_finalizer_guards_teardown", "C11.x_batch_advance_guarded", "C01.x_batch_advance_guarded",
+      "C11.x_within_partition", "C01.x_within_partition", "C11.x_completed_means_released", "C18.x_completed_means_released"]
+    let holds := if k ≥ 1000000 then
+        holds.filter (fun kv => outageRobust.contains kv.1) ++ [("C11.x_ready_only_if_ready", !becameReady || ready)]
+      else if k > 0 then holds.filter (fun kv => robust.contains kv.1) else holds
+    let tags := if k ≥ 1000000 then "fault:list-outage" :: tags else tags
     return { model := model, holds := ("C09.x_no_panic", true) :: holds, tags := tags }
 
 def handle : Handler := fun op inp impl => do
@@ -231,7 +243,10 @@ def handle : Handler := fun op inp impl => do
     let br ← RV.Drv.Executor.brOfJson (← jget inp "br")
     let worldIn ← jget inp "world"
     let shape ← fStr worldIn "shape"
-    let k ← fNat inp "k"
+    let k0 ← fNat inp "k"
+    let outage := ((jopt inp "outage").bind (fun x => x.getStr?.toOption)).getD "" != ""
+    -- an outage is a fault for the comparison (no model output) ...
+    let k := if outage then k0 + 1000000 else k0
     let baseTags := [s!"kind:{← fStr inp "kind"}", s!"style:{styleStr style}", s!"phase:{RV.Drv.Executor.phaseStr br.status.phase}",
       s!"state:{RV.Drv.Executor.bstateStr br.status.batchState}", if br.deleting then "deleting" else "live",
       if br.partition.isSome then "partitioned" else "nopartition", if br.rollbackAnno then "rollbackAnno" else "noRollbackAnno",
